@@ -23,6 +23,19 @@ pub open spec fn spec_is_section_header(b0: u8, b1: u8, b2: u8) -> bool { b0 == 
 #[verifier::external_body]
 pub fn is_section_header(b0: u8, b1: u8, b2: u8) -> (r: bool) ensures r == spec_is_section_header(b0, b1, b2) { unimplemented!() }
 
+pub open spec fn hdr_at(s: Seq<u8>, i: int) -> bool { 0 <= i && i + 2 < s.len() && spec_is_section_header(s[i], s[i + 1], s[i + 2]) }
+/// the number of section headers that start before position n, and where the last of them starts (0 if there is none)
+pub open spec fn hdr_count(s: Seq<u8>, n: int) -> int decreases n { if n <= 0 { 0 } else { hdr_count(s, n - 1) + (if hdr_at(s, n - 1) { 1int } else { 0int }) } }
+pub open spec fn hdr_last(s: Seq<u8>, n: int) -> int decreases n { if n <= 0 { 0 } else if hdr_at(s, n - 1) { n - 1 } else { hdr_last(s, n - 1) } }
+pub proof fn lemma_hdr_bounds(s: Seq<u8>, n: int)
+    requires 0 <= n,
+    ensures 0 <= hdr_count(s, n) <= n, 0 <= hdr_last(s, n) <= n, n > 0 ==> hdr_last(s, n) < n,
+    decreases n,
+{ if n > 0 { lemma_hdr_bounds(s, n - 1); } }
+/// position i is where the octet (section, offset) of the payload lies: the (section+1)-th section header starts at or before i, no further one up to i, and i is `offset` octets behind it
+pub open spec fn at_position(s: Seq<u8>, i: int, section: int, offset: int) -> bool {
+    hdr_count(s, i + 1) == section + 1 && i - hdr_last(s, i + 1) == offset
+}
 //@@ fn file=fe2o3-amqp/src/link/resumption.rs name=split_off_at_section_and_offset
 //@@ shape loops=for
 //@@ blockarms
@@ -33,12 +46,26 @@ pub fn is_section_header(b0: u8, b1: u8, b2: u8) -> (r: bool) ensures r == spec_
 //@@ subst `let mut last_section_index = 0;` => `let mut last_section_index: usize = 0;` rule=optional-R5
 //@@ spec
     ensures
+        ({ let n = if payload@.len() >= 2 { payload@.len() - 2 } else { 0 };
+           &&& r is Some ==> ({ let i = payload@.len() - r->Some_0@.len();
+                    0 <= i < n && at_position(payload@, i, section as int, offset as int) && r->Some_0@ == payload@.skip(i)
+                    && (forall|j: int| 0 <= j < i ==> !#[trigger] at_position(payload@, j, section as int, offset as int)) })       // [C01.resume.resent-part-starts-where-the-receiver-stopped] [C02.resume.resent-part-starts-where-the-receiver-stopped] the tail sent again starts at THE octet the peer's `received` state names: `offset` octets into section number `section` (sections counted from 0 by their headers), the first such position -- not one section earlier or later, not anywhere else
+           &&& r is None ==> forall|j: int| 0 <= j < n ==> !#[trigger] at_position(payload@, j, section as int, offset as int) }),       // [C02.resume.no-position-no-tail] and only when the payload has no such position is nothing found
         r is Some ==> exists|i: int| 0 <= i <= payload@.len() && r->Some_0@ == payload@.skip(i),       // [C01.resume.resent-part-is-a-suffix] [C02.resume.resent-part-is-a-suffix] what is sent again of a partially received delivery is a tail of the delivery's own payload -- for ANY section number and offset the peer's `received` state names (out of range: nothing, the whole payload is sent again); no panic, no overflow [C15.resume.peer-offsets-no-panic]
 //@@ loop 0
         invariant
             len == payload@.len(), __n == (if len >= 2 { len - 2 } else { 0 }), i <= __n,
             last_section_index <= i,      //@if last_section_index
             section_counter is Some ==> section_counter->Some_0 <= i,
+            hdr_count(payload@, i as int) == (match section_counter { Some(v) => v as int + 1, None => 0 }),
+            last_section_index as int == hdr_last(payload@, i as int),      //@if last_section_index
+            forall|j: int| 0 <= j < i ==> !#[trigger] at_position(payload@, j, section as int, offset as int),
+//@@ loopstart 0
+            proof {
+                lemma_hdr_bounds(payload@, i as int); lemma_hdr_bounds(payload@, i as int + 1);
+                assert(hdr_count(payload@, i as int + 1) == hdr_count(payload@, i as int) + (if hdr_at(payload@, i as int) { 1int } else { 0int }));
+                assert(hdr_last(payload@, i as int + 1) == (if hdr_at(payload@, i as int) { i as int } else { hdr_last(payload@, i as int) }));
+            }
 //@@ end
 
 } // verus!
